@@ -1,8 +1,526 @@
 import Karp.Driver.Proto
+import Karp.Driver.ScenarioJson
+import Karp.Model.Reservation
+import Karp.Spec.Reserved
+import Karp.Spec.ReservedLedger
+import Karp.Model.DraTracker
+import Karp.Spec.DraExclusive
+import Karp.Driver.ReqJson
 
 namespace Karp.Driver.C17
-open Lean Karp.Driver
+open Lean Karp.Driver Karp.Reservation
 
-def handle : Handler := fun op _ _ => .error s!"unknown op {op}"
+/-! ## c17.rm -/
+
+structure OffJ where
+  ct : String
+  id : String
+  cap : Int
+
+def offJ (j : Json) : Except String OffJ := do
+  pure { ct := ← strF j "ct", id := ← strF j "id", cap := ← intF j "cap" }
+
+/-- the reserved offerings as (reservation id, capacity) -/
+def reservedOf (offs : List OffJ) : List (String × Int) :=
+  (offs.filter (fun o => o.ct == Karp.Gen.Labels.capacityTypeReserved)).map (fun o => (o.id, o.cap))
+
+structure OpJ where
+  op : String
+  host : String
+  ids : List String
+
+def opJ (j : Json) : Except String OpJ := do
+  pure { op := ← strF j "op", host := (← strO j "host").getD "", ids := ← (match fldOpt j "ids" with | none => pure [] | some v => strList v) }
+
+def toModelOp (o : OpJ) : Except String Op :=
+  match o.op, o.ids with
+  | "can", id :: _ => pure (.canReserve o.host id)
+  | "has", id :: _ => pure (.has o.host id)
+  | "remaining", id :: _ => pure (.remaining id)
+  | "reserve", ids => pure (.reserve o.host ids)
+  | "guarded", ids => pure (.guarded o.host ids)
+  | "release", ids => pure (.release o.host ids)
+  | _, _ => throw s!"bad op {o.op}"
+
+def toSpecOp (o : OpJ) : Except String Karp.Spec.Reserved.OpS :=
+  match o.op, o.ids with
+  | "can", id :: _ => pure (.can o.host id)
+  | "has", id :: _ => pure (.has o.host id)
+  | "remaining", id :: _ => pure (.remaining id)
+  | "reserve", ids => pure (.reserve o.host ids)
+  | "guarded", ids => pure (.guarded o.host ids)
+  | "release", ids => pure (.release o.host ids)
+  | _, _ => throw s!"bad op {o.op}"
+
+def sortS (l : List String) : List String := (l.eraseDups.toArray.qsort (· < ·)).toList
+
+def panicName : Panic → String
+  | .nonExistent => "nonExistent"
+  | .overReserve => "overReserve"
+
+def obsStr : Obs → String
+  | .bool b => toString b
+  | .int n => s!"n:{n}"
+  | .unit => "ok"
+  | .granted ids => "granted:" ++ ",".intercalate ids
+  | .panic p => "panic:" ++ panicName p
+
+def snapJson (rm : RM) (ids hosts : List String) : Json :=
+  jObj [("remaining", jObj (ids.map (fun id => (id, jInt (rm.remaining id))))),
+        ("holders", jObj (ids.map (fun id => (id, jArr ((hosts.filter (fun h => rm.has h id)).map jStr)))))]
+
+def parseSnap (j : Json) : Except String Karp.Spec.Reserved.Snap := do
+  let rem ← match fldOpt j "remaining" with
+    | some (.obj kvs) => kvs.toList.mapM (fun (k, v) => do pure (k, ← asInt v))
+    | _ => pure []
+  let hol ← match fldOpt j "holders" with
+    | some (.obj kvs) => kvs.toList.mapM (fun (k, v) => do pure (k, ← strList v))
+    | _ => pure []
+  pure { remaining := rem, holders := hol }
+
+def opRM (inp impl : Json) : Except String Resp := do
+  let offs ← (← arrF inp "offerings").mapM offJ
+  let ops ← (← arrF inp "ops").mapM opJ
+  let reserved := reservedOf offs
+  let ids := sortS (reserved.map (·.1) ++ ops.flatMap (·.ids) ++
+    (if offs.any (fun o => o.ct != Karp.Gen.Labels.capacityTypeReserved) then [""] else []))
+  let hosts := sortS ((ops.map (·.host)).filter (· != ""))
+  let mops ← ops.mapM toModelOp
+  -- the model, with a snapshot after every op
+  let rec go (rm : RM) (ops : List Op) (accO : List Json) (accS : List Json) : List Json × List Json :=
+    match ops with
+    | [] => (accO.reverse, accS.reverse)
+    | op :: rest =>
+      match stepOp rm op with
+      | .error p => ((jStr (obsStr (.panic p)) :: accO).reverse, accS.reverse)
+      | .ok (rm', o) => go rm' rest (jStr (obsStr o) :: accO) (snapJson rm' ids hosts :: accS)
+  let (mo, ms) := go (RM.new reserved) mops [] []
+  -- the ledger specification on what the real manager did
+  let sops ← ops.mapM toSpecOp
+  let (specOk, why) ← match fldOpt impl "obs", fldOpt impl "snaps" with
+    | some o, some s => do
+      let obs ← strList o
+      let snaps ← listOf parseSnap s
+      match Karp.Spec.Reserved.historyOK reserved ids (Karp.Spec.Reserved.initSnap reserved ids) sops obs snaps with
+      | some w => pure (false, w)
+      | none =>
+        -- … and the observations are the ledger's (Spec/ReservedLedger.specObs)
+        let want := (Karp.Spec.ReservedLedger.specObs reserved [] mops).map obsStr
+        if obs != want then pure (false, s!"observations {obs} differ from the holder ledger's {want}") else pure (true, "")
+    | _, _ => pure (false, "implementation produced no observations (panic outside an op?)")
+  pure { model := some (jObj [("obs", jArr mo), ("snaps", jArr ms)]), spec := some specOk, why := why }
+
+
+/-! ## c17.claims -/
+
+open Karp.Spec.Reserved in
+def stepObs (j : Json) : Except String StepObs := do
+  let held ← match fldOpt j "held" with
+    | some (.obj kvs) => kvs.toList.mapM (fun (k, v) => do pure (k, ← strList v))
+    | _ => pure []
+  let rem ← match fldOpt j "remaining" with
+    | some (.obj kvs) => kvs.toList.mapM (fun (k, v) => do pure (k, ← asInt v))
+    | _ => pure []
+  pure { claim := ← intF j "claim", isNew := ← boolD j "new" false, base := ← strF j "base",
+         compat := ← (match fldOpt j "compat" with | none => pure [] | some v => strList v),
+         result := ← strF j "result", ofs := ← (match fldOpt j "ofs" with | none => pure [] | some v => strList v),
+         held := held, remaining := rem }
+
+def reqObsOf (j : Json) (k : String) : Except String (Option Karp.Spec.Reserved.ReqObs) :=
+  match fldOpt j k with
+  | none => pure none
+  | some v => do
+    let r ← Karp.Driver.ScenarioJson.snapReq v
+    pure (some { complement := r.complement, values := r.values, bounded := r.gte.isSome || r.lte.isSome })
+
+def reqOf (j : Json) (k : String) : Except String (Option Karp.Req.Req) :=
+  match fldOpt j k with
+  | none => pure none
+  | some v => do pure (some (← Karp.Driver.ScenarioJson.snapReq v))
+
+def snapOpt : Option Karp.Req.Req → Json
+  | none => Json.null
+  | some r => Karp.Driver.ReqJson.snap r
+
+/-- reserved offerings (id, capacity) of a scenario catalog -/
+def catalogReserved (its : List Karp.Scn.IT) : List (String × Int) :=
+  its.flatMap (fun it => (it.offerings.filter (fun o => o.ct == Karp.Gen.Labels.capacityTypeReserved)).map (fun o => (o.resID, (o.resN : Int))))
+
+def opClaims (inp impl : Json) : Except String Resp := do
+  let its ← Karp.Driver.ScenarioJson.listF Karp.Driver.ScenarioJson.it inp "its"
+  let strict ← boolF inp "strict"
+  let gate ← boolF inp "gate"
+  let ridKey ← strF inp "ridKey"
+  let reserved := catalogReserved its
+  let ids := sortS (reserved.map (·.1))
+  match fldOpt impl "err" with
+  | some (.str e) => if e != "" then return { allowed := some true, spec := some true, why := "harness could not build the case: " ++ e }
+  | _ => pure ()
+  if (fldOpt impl "panic").isSome then
+    return { allowed := some false, spec := some false, why := "the reservation code panicked: " ++ (toString (fldOpt impl "panic").get!) }
+  let steps ← (← arrF impl "steps").mapM stepObs
+  let finals ← arrF impl "finals"
+  let mode := if strict then strictMode else fallbackMode
+  -- model: replay the trace
+  let host (k : Int) : String := s!"c{k}"
+  let rec go (st : St) (n : Nat) (ss : List Karp.Spec.Reserved.StepObs) (i : Nat) : Except String (St × Nat) :=
+    match ss with
+    | [] => pure (st, n)
+    | s :: rest =>
+      let check (st' : St) (n' : Nat) : Except String (St × Nat) := do
+        -- compare the model state with the observed one
+        for k in List.range n' do
+          let h := host k
+          let mh := sortS (ids.filter (fun id => st'.rm.has h id))
+          let ih := sortS (Karp.Spec.Reserved.heldOf s.held k)
+          if mh != ih then throw s!"step {i}: model says claim {k} holds {mh}, the real manager says {ih}"
+        for id in ids do
+          let ir := (s.remaining.lookup id).getD 0
+          if st'.rm.remaining id != ir then throw s!"step {i}: model remaining[{id}] = {st'.rm.remaining id}, real = {ir}"
+        go st' n' rest (i + 1)
+      if s.base == "void" then check st n
+      else if s.base != "ok" then
+        if s.result != "fail" then throw s!"step {i}: base CanAdd failed, model expects fail, real CanAdd answered {s.result}" else check st n
+      else
+        let h := if s.isNew then host n else host s.claim
+        match round gate mode st { host := h, compat := s.compat } with
+        | .error p => throw s!"step {i}: the model reaches the panic {panicName p}"
+        | .ok (st', added) =>
+          if !added then
+            if s.result != "reserved" then throw s!"step {i}: model expects a reserved-offering error, real CanAdd answered {s.result}" else check st' n
+          else if s.result != "ok" then throw s!"step {i}: model expects success, real CanAdd answered {s.result}"
+          else if (st'.claim h).reserved != s.ofs then throw s!"step {i}: model reserves {(st'.claim h).reserved}, real CanAdd returned {s.ofs}"
+          else check st' (if s.isNew then n + 1 else n)
+  let modelRes := go (St.init reserved) 0 steps 0
+  let (allowed, whyM, finalSt) := match modelRes with
+    | .ok (st, _) => (true, "", some st)
+    | .error e => (false, e, none)
+  -- model of FinalizeScheduling per claim
+  let (allowed, whyM) ← match finalSt with
+    | none => pure (allowed, whyM)
+    | some st => do
+      let mut ok := allowed
+      let mut why := whyM
+      for (f, k) in finals.zip (List.range finals.length) do
+        let pre : Karp.Req.Reqs := (match ← reqOf f "preCT" with | some r => [(capacityTypeKey, r)] | none => []) ++
+          (match ← reqOf f "preRID" with | some r => [(ridKey, r)] | none => [])
+        let post := finalize ridKey pre (st.claim (host k))
+        let okCT := jsonEq (snapOpt (post.lookup capacityTypeKey)) ((fldOpt f "postCT").getD Json.null)
+        let okRID := jsonEq (snapOpt (post.lookup ridKey)) ((fldOpt f "postRID").getD Json.null)
+        if ok && !(okCT && okRID) then
+          ok := false
+          why := s!"claim {k}: model finalization gives {(snapOpt (post.lookup capacityTypeKey)).compress} / {(snapOpt (post.lookup ridKey)).compress}"
+      pure (ok, why)
+  -- specification on the observations
+  let initRem := ids.map (fun id => (id, (Karp.Spec.Reserved.capOf reserved id).getD 0))
+  let specSteps := Karp.Spec.Reserved.stepsOK reserved ids gate strict [] initRem steps 0
+  let lastHeld := match steps.getLast? with | some s => s.held | none => []
+  let specFinal ← (finals.zip (List.range finals.length)).findSomeM? (fun (f, k) => do
+    let r := Karp.Spec.Reserved.finalOK (Karp.Spec.Reserved.heldOf lastHeld k) (← reqObsOf f "preCT") (← reqObsOf f "preRID")
+      (← reqObsOf f "postCT") (← reqObsOf f "postRID") (← boolD f "hostnameLeft" false)
+    pure (r.map (fun w => s!"claim {k}: {w}")))
+  let spec := match specSteps with | some w => some w | none => specFinal
+  pure { allowed := some allowed, spec := some spec.isNone, why := (spec.getD "") ++ (if allowed then "" else " | model: " ++ whyM) }
+
+
+/-! ## c17.pass -/
+
+def claimRes (j : Json) : Except String Karp.Spec.Reserved.ClaimRes := do
+  pure { host := ← strF j "host", reserved := ← (match fldOpt j "reserved" with | none => pure [] | some v => strList v),
+         held := ← (match fldOpt j "held" with | none => pure [] | some v => strList v) }
+
+def opPass (inp impl : Json) : Except String Resp := do
+  let s ← Karp.Driver.ScenarioJson.scenario inp
+  let ridKey ← strF inp "ridKey"
+  match fldOpt impl "err" with
+  | some (.str e) => if e != "" then return { allowed := some true, spec := some true, why := "pass returned an error: " ++ e }
+  | _ => pure ()
+  if (fldOpt impl "panic").isSome then
+    return { allowed := some false, spec := some false, why := "the scheduler panicked: " ++ (toString (fldOpt impl "panic").get!),
+             extra := some (jObj [("signature", jStr "panic")]) }
+  let out ← Karp.Driver.ScenarioJson.outcome impl
+  let res ← (← arrF impl "claims").mapM claimRes
+  let capacity ← match fldOpt impl "capacity" with
+    | some (.obj kvs) => kvs.toList.mapM (fun (k, v) => do pure (k, ← asInt v))
+    | _ => pure []
+  let orphans ← match fldOpt impl "orphans" with
+    | some (.obj kvs) => kvs.toList.mapM (fun (k, v) => do pure (k, ← strList v))
+    | _ => pure []
+  match Karp.Spec.Reserved.passOK s ridKey out res capacity orphans with
+  | none => pure { allowed := some true, spec := some true }
+  | some why =>
+    let sig := if why.startsWith "[" then ((why.splitOn "]").head!.drop 1).toString else "pass"
+    pure { allowed := some true, spec := some false, why := why, extra := some (jObj [("signature", jStr sig)]) }
+
+
+/-! ## c17.dra -/
+
+namespace Dra
+open Karp.DraTracker
+
+def devJ (j : Json) : Except String Dev := do pure { name := ← strF j "name", template := ← boolD j "template" false }
+
+def allocJ (j : Json) : Except String (IT × List Dev) := do
+  pure (← strF j "it", ← (match fldOpt j "devs" with | none => pure [] | some v => listOf devJ v))
+
+structure OpJ where
+  op : String
+  nc : String
+  alloc : List (IT × List Dev)
+  its : List String
+
+def opJ (j : Json) : Except String OpJ := do
+  pure { op := ← strF j "op", nc := ← strF j "nc",
+         alloc := ← (match fldOpt j "alloc" with | none => pure [] | some v => listOf allocJ v),
+         its := ← (match fldOpt j "its" with | none => pure [] | some v => strList v) }
+
+def toOp (o : OpJ) : Except String DraTracker.Op :=
+  match o.op with
+  | "commit" => pure (.commit o.nc o.alloc)
+  | "guarded" => pure (.guarded o.nc o.alloc)
+  | "release" => pure (.release o.nc o.its)
+  | _ => throw s!"bad op {o.op}"
+
+def panicName : DraTracker.Panic → String
+  | .dupInstanceType => "dupInstanceType"
+  | .otherNodeClaim => "otherNodeClaim"
+  | .missingRefCount => "missingRefCount"
+  | .missingITRef => "missingITRef"
+
+def sortStr (l : List String) : List String := (l.toArray.qsort (· < ·)).toList
+
+def showPair (p : IT × Dev) : String := p.1 ++ "/" ++ p.2.name ++ (if p.2.template then "*" else "")
+
+def snapJson (t : Tracker) (devs : List Dev) (ncs its : List String) : Json :=
+  let allocated := devs.flatMap (fun d => ncs.flatMap (fun nc => its.filterMap (fun it =>
+    if t.isAllocated d nc it then some (d.name ++ (if d.template then "*" else "") ++ "|" ++ nc ++ "|" ++ it) else none)))
+  jObj [("inflight", jArr ((sortStr (t.inflight.map (fun (d, nc, it) => d ++ "|" ++ nc ++ "|" ++ it))).map jStr)),
+        ("byNC", jArr ((sortStr (t.byNC.map (fun (nc, it, d) => nc ++ "|" ++ it ++ "|" ++ d))).map jStr)),
+        ("template", jArr ((sortStr (t.template.map (fun (nc, it, d) => nc ++ "|" ++ it ++ "|" ++ d))).map jStr)),
+        ("allocated", jArr ((sortStr allocated).map jStr))]
+
+structure SnapObs where
+  inflight : List String
+  byNC : List String
+  template : List String
+  allocated : List String
+
+def snapObs (j : Json) : Except String SnapObs := do
+  let f (k : String) : Except String (List String) := match fldOpt j k with | none => pure [] | some v => strList v
+  pure { inflight := ← f "inflight", byNC := ← f "byNC", template := ← f "template", allocated := ← f "allocated" }
+
+open Karp.Spec.DraExclusive in
+/-- judge the observed history by the set-of-holdings specification -/
+def specHistory (prealloc : List String) (devs : List Karp.Spec.DraExclusive.Dev) (ncs its : List String) :
+    List Holding → Bool → List Karp.Spec.DraExclusive.OpS → List String → List SnapObs → Nat → Option String
+  | _, _, [], _, _, _ => none
+  | _, _, _ :: _, [], _, i => some s!"op {i}: no observation"
+  | held, disciplined, op :: ops, obs :: os, snaps, i =>
+    let (want, next) := step prealloc held op
+    let disciplined := disciplined && (match op with | .commit _ _ => false | _ => true)
+    match next with
+    | none => if obs.startsWith "panic:" then none else some s!"op {i}: the commit names a device that is already taken; the tracker must refuse it, it answered {obs}"
+    | some h =>
+      if obs != want then some s!"op {i}: observed {obs}, the holdings say {want}" else
+      match snaps with
+      | [] => some s!"op {i}: no state recorded"
+      | s :: rest =>
+        let wantInflight := sortStr ((h.filter (fun x => !x.1.template)).map (fun (d, nc, it) => d.name ++ "|" ++ nc ++ "|" ++ it))
+        let wantByNC := sortStr ((h.filter (fun x => !x.1.template)).map (fun (d, nc, it) => nc ++ "|" ++ it ++ "|" ++ d.name))
+        let wantTemplate := sortStr ((h.filter (fun x => x.1.template)).map (fun (d, nc, it) => nc ++ "|" ++ it ++ "|" ++ d.name))
+        let wantAllocated := sortStr (devs.flatMap (fun d => ncs.flatMap (fun nc => its.filterMap (fun it =>
+          if taken prealloc h d nc it then some (d.name ++ (if d.template then "*" else "") ++ "|" ++ nc ++ "|" ++ it) else none))))
+        if s.inflight != wantInflight then some s!"op {i}: in-cluster holdings are {s.inflight}, expected {wantInflight}"
+        else if s.byNC != wantByNC then some s!"op {i}: the per-NodeClaim index {s.byNC} does not mirror the holdings {wantByNC}"
+        else if s.template != wantTemplate then some s!"op {i}: template holdings are {s.template}, expected {wantTemplate}"
+        else if s.allocated != wantAllocated then some s!"op {i}: IsAllocated is true for {s.allocated}, the holdings say {wantAllocated}"
+        else match exclusive h with
+          | some w => some s!"op {i}: {w}"
+          | none =>
+            if disciplined && h.any (fun x => !x.1.template && prealloc.contains x.1.name) then some s!"op {i}: a device already allocated in the cluster was allocated again"
+            else specHistory prealloc devs ncs its h disciplined ops os rest (i + 1)
+
+def opDRA (inp impl : Json) : Except String Resp := do
+  let prealloc ← (match fldOpt inp "prealloc" with | none => pure [] | some v => strList v)
+  let ops ← (← arrF inp "ops").mapM opJ
+  let mops ← ops.mapM toOp
+  -- the universe, as the harness builds it
+  let allDevs : List Dev := (prealloc.map (fun p => ({ name := p, template := false } : Dev))) ++ ops.flatMap (fun o => o.alloc.flatMap (·.2))
+  let devs := (allDevs.eraseDups.toArray.qsort (fun a b => a.name < b.name || (a.name == b.name && !a.template && b.template))).toList
+  let ncs := sortStr (ops.map (·.nc)).eraseDups
+  let its := sortStr (ops.flatMap (fun o => o.alloc.map (·.1) ++ o.its)).eraseDups
+  let rec go (t : Tracker) (ops : List DraTracker.Op) (accO accS : List Json) : List Json × List Json :=
+    match ops with
+    | [] => (accO.reverse, accS.reverse)
+    | op :: rest =>
+      match DraTracker.stepOp t op with
+      | .error p => ((jStr ("panic:" ++ panicName p) :: accO).reverse, accS.reverse)
+      | .ok t' =>
+        let o := match op with
+          | .guarded nc alloc => "granted:" ++ ",".intercalate ((t.grantable nc (pairsOf alloc)).map showPair)
+          | _ => "ok"
+        go t' rest (jStr o :: accO) (snapJson t' devs ncs its :: accS)
+  let (mo, ms) := go (Tracker.new prealloc) mops [] []
+  -- specification
+  let sdev (d : Dev) : Karp.Spec.DraExclusive.Dev := { name := d.name, template := d.template }
+  let sops : List Karp.Spec.DraExclusive.OpS := ops.map (fun o =>
+    let pairs := (pairsOf o.alloc).map (fun (it, d) => (it, sdev d))
+    match o.op with
+    | "commit" => .commit o.nc pairs
+    | "guarded" => .guarded o.nc pairs
+    | _ => .release o.nc o.its)
+  let (specOk, why) ← match fldOpt impl "obs", fldOpt impl "snaps" with
+    | some o, some s => do
+      let obs ← strList o
+      let snaps ← listOf snapObs s
+      match specHistory prealloc (devs.map sdev) ncs its [] true sops obs snaps 0 with
+      | none => pure (true, "")
+      | some w => pure (false, w)
+    | _, _ => pure (false, "implementation produced no observations")
+  pure { model := some (jObj [("obs", jArr mo), ("snaps", jArr ms)]), spec := some specOk, why := why }
+
+end Dra
+
+
+/-! ## c17.alloc -/
+
+def entryJ (j : Json) : Except String Karp.Spec.DraExclusive.Entry := do
+  let drv ← strF j "driver"
+  let cls := if drv == "gpu.example.com" then "gpu" else if drv == "tmpl.example.com" then "tmpl" else if drv == "shared.example.com" then "shared"
+    else if drv == "part.example.com" then "part" else drv
+  pure { claim := ← strF j "claim", nc := ← strF j "nc", it := ← strF j "it", dev := ← strF j "dev", cls := cls,
+         template := ← boolD j "template" false, consumed := ← intF j "consumed" }
+
+def claimSpecJ (j : Json) : Except String Karp.Spec.DraExclusive.ClaimSpec := do
+  pure { name := ← strF j "name", cls := ← strF j "class", count := ← natF j "count", cap := (← intO j "cap").getD 0 }
+
+def opAlloc (inp impl : Json) : Except String Resp := do
+  let prealloc ← (match fldOpt inp "prealloc" with | none => pure [] | some v => strList v)
+  let sharedCap ← (match fldOpt inp "shared" with
+    | none => pure []
+    | some v => listOf (fun j => do pure ((← strF j "name"), (← intF j "cap"))) v)
+  let weights ← (match fldOpt inp "parts" with
+    | none => pure []
+    | some v => listOf (fun j => do pure ((← strF j "name"), (← intF j "w"))) v)
+  let slots := (← intO inp "slots").getD 0
+  let ops ← arrF inp "ops"
+  let claims ← ops.foldlM (fun (acc : List Karp.Spec.DraExclusive.ClaimSpec) o => do
+    let cs ← (match fldOpt o "claims" with | none => pure [] | some v => listOf claimSpecJ v)
+    pure (acc ++ cs.filter (fun c => !acc.any (·.name == c.name)))) []
+  match fldOpt impl "err" with
+  | some (.str e) => if e != "" then return { allowed := some true, spec := some true, why := "harness: " ++ e }
+  | _ => pure ()
+  if (fldOpt impl "panic").isSome then
+    return { allowed := some false, spec := some false, why := "the allocator panicked: " ++ (toString (fldOpt impl "panic").get!) }
+  let steps ← arrF impl "steps"
+  if steps.length != ops.length then throw "steps/ops length mismatch"
+  -- walk the steps: specification on the metadata, tracker model replay
+  let mut t : Karp.DraTracker.Tracker := Karp.DraTracker.Tracker.new prealloc
+  let mut seen : List String := []
+  let mut specWhy : Option String := none
+  let mut modelWhy : Option String := none
+  let mut i := 0
+  for (o, st) in ops.zip steps do
+    let entries ← (match fldOpt st "meta" with | none => pure [] | some v => listOf entryJ v)
+    let nc ← strF o "nc"
+    let kind ← strF o "op"
+    let result ← strF st "result"
+    -- spec
+    if specWhy.isNone then
+      match Karp.Spec.DraExclusive.metaOK prealloc sharedCap weights slots claims entries with
+      | some w => specWhy := some s!"op {i}: {w}"
+      | none =>
+        -- the tracker's pessimistic accounting of shared capacity equals the worst case of the published allocations
+        let inflight ← match fldOpt st "inflight" with
+          | some (.obj kvs) => kvs.toList.mapM (fun (k, v) => do pure (k, ← asInt v))
+          | _ => pure []
+        match sharedCap.find? (fun (d, _) => (inflight.lookup d).getD 0 != Karp.Spec.DraExclusive.worstCase entries d) with
+        | some (d, _) => specWhy := some s!"op {i}: the tracker accounts {(inflight.lookup d).getD 0} of {d} as consumed, the published allocations amount to {Karp.Spec.DraExclusive.worstCase entries d}"
+        | none =>
+          -- … and so does its remaining shared-counter budget
+          match ← intO st "counter" with
+          | none => pure ()
+          | some rem =>
+            let want := slots - Karp.Spec.DraExclusive.worstCounter weights entries
+            if rem != want then specWhy := some s!"op {i}: the tracker's remaining counter budget is {rem}, counter − worst-case consumption of the published allocations = {want}"
+    -- model
+    if modelWhy.isNone then
+      if kind == "allocate" then
+        if result == "ok" then
+          let fresh := entries.filter (fun e => !seen.contains e.claim && e.cls != "shared")
+          let pairs : List (String × Karp.DraTracker.Dev) := fresh.map (fun e => (e.it, { name := e.dev, template := e.template }))
+          match pairs.find? (fun p => t.isAllocated p.2 nc p.1) with
+          | some p => modelWhy := some s!"op {i}: the allocator committed {p.2.name} for ({nc}, {p.1}) although IsAllocated reports it taken"
+          | none =>
+            if fresh.any (fun e => e.nc != nc) then modelWhy := some s!"op {i}: a fresh claim is recorded for another NodeClaim" else
+            match t.commitPairs nc pairs with
+            | .error p => modelWhy := some s!"op {i}: the tracker model panics ({Dra.panicName p}) on the allocator's choice"
+            | .ok t' => t := t'
+      else
+        let its ← (match fldOpt o "its" with | none => pure [] | some v => strList v)
+        match t.release nc its with
+        | .error p => modelWhy := some s!"op {i}: the tracker model panics ({Dra.panicName p}) on release"
+        | .ok t' => t := t'
+      -- pruned / failed instance types: whatever the claim no longer lists was released
+      if modelWhy.isNone then
+        let tr ← Dra.snapObs ((fldOpt st "tracker").getD Json.null)
+        -- the model state after the harness-side pruning: drop holdings of this nodeclaim that the real tracker dropped
+        let wantInflight := tr.inflight
+        let mInflight := Dra.sortStr (t.inflight.map (fun (d, n, it) => d ++ "|" ++ n ++ "|" ++ it))
+        if kind == "allocate" && (mInflight != wantInflight || Dra.sortStr (t.template.map (fun (n, it, d) => n ++ "|" ++ it ++ "|" ++ d)) != tr.template) then
+          -- the scheduler-side pruning (drop) is not part of the input of the model: re-synchronise on instance types that disappeared for nc
+          let gone := (t.inflight.filter (fun (d, n, it) => n == nc && !wantInflight.contains (d ++ "|" ++ n ++ "|" ++ it))).map (·.2.2)
+          let goneT := (t.template.filter (fun (n, it, d) => n == nc && !tr.template.contains (n ++ "|" ++ it ++ "|" ++ d))).map (·.2.1)
+          match t.release nc (gone ++ goneT).eraseDups with
+          | .error p => modelWhy := some s!"op {i}: the tracker model panics ({Dra.panicName p}) on the pruned release"
+          | .ok t' => t := t'
+        let mInflight := Dra.sortStr (t.inflight.map (fun (d, n, it) => d ++ "|" ++ n ++ "|" ++ it))
+        let mByNC := Dra.sortStr (t.byNC.map (fun (n, it, d) => n ++ "|" ++ it ++ "|" ++ d))
+        let mTemplate := Dra.sortStr (t.template.map (fun (n, it, d) => n ++ "|" ++ it ++ "|" ++ d))
+        if mInflight != tr.inflight then modelWhy := some s!"op {i}: model holdings {mInflight}, real tracker {tr.inflight}"
+        else if mByNC != tr.byNC then modelWhy := some s!"op {i}: model index {mByNC}, real tracker {tr.byNC}"
+        else if mTemplate != tr.template then modelWhy := some s!"op {i}: model template holdings {mTemplate}, real tracker {tr.template}"
+    seen := (seen ++ entries.map (·.claim)).eraseDups
+    i := i + 1
+  pure { allowed := some modelWhy.isNone, spec := some specWhy.isNone,
+         why := (specWhy.getD "") ++ (match modelWhy with | some w => " | model: " ++ w | none => "") }
+
+
+/-! ## c17.drapass -/
+
+def opDraPass (inp impl : Json) : Except String Resp := do
+  let prealloc ← (match fldOpt inp "prealloc" with | none => pure [] | some v => strList v)
+  let sharedCap ← (match fldOpt inp "shared" with
+    | none => pure []
+    | some v => listOf (fun j => do pure ((← strF j "name"), (← intF j "cap"))) v)
+  let claims ← (match fldOpt inp "claims" with | none => pure [] | some v => listOf claimSpecJ v)
+  let podClaims ← (match fldOpt inp "pods" with
+    | none => pure []
+    | some v => listOf (fun j => do pure ((← strF j "name"), ← (match fldOpt j "claims" with | none => pure [] | some c => strList c))) v)
+  match fldOpt impl "err" with
+  | some (.str e) => if e != "" then return { allowed := some true, spec := some true, why := "pass returned an error: " ++ e }
+  | _ => pure ()
+  if (fldOpt impl "panic").isSome then
+    return { allowed := some false, spec := some false, why := "the scheduler panicked: " ++ (toString (fldOpt impl "panic").get!) }
+  let entries ← (match fldOpt impl "meta" with | none => pure [] | some v => listOf entryJ v)
+  let ncs ← (match fldOpt impl "claims" with
+    | none => pure []
+    | some v => listOf (fun j => do
+        pure ({ host := ← strF j "host", pods := ← (match fldOpt j "pods" with | none => pure [] | some c => strList c),
+                its := ← (match fldOpt j "instanceTypes" with | none => pure [] | some c => strList c) } : Karp.Spec.DraExclusive.PassClaim)) v)
+  let verdict := match Karp.Spec.DraExclusive.metaOK prealloc sharedCap [] 0 claims entries with
+    | some w => some w
+    | none => Karp.Spec.DraExclusive.passComplete claims podClaims ncs entries
+  pure { allowed := some true, spec := some verdict.isNone, why := verdict.getD "" }
+
+def handle : Handler := fun op inp impl =>
+  match op with
+  | "c17.rm" => opRM inp impl
+  | "c17.claims" => opClaims inp impl
+  | "c17.pass" => opPass inp impl
+  | "c17.dra" => Dra.opDRA inp impl
+  | "c17.alloc" => opAlloc inp impl
+  | "c17.drapass" => opDraPass inp impl
+  | _ => .error s!"unknown op {op}"
 
 end Karp.Driver.C17
